@@ -191,7 +191,7 @@ Lemma combine_spec a b c :
   (len (rs_data a) + len (rs_data b) <= MAX_OVERFLOW_SIZE /\ rs_src a = rs_src b /\
    ((rs_cc a = GET_COMMAND_RESPONSE /\ rs_cc b = GET_COMMAND_RESPONSE) \/
     (rs_cc a = SET_COMMAND_RESPONSE /\ rs_cc b = SET_COMMAND_RESPONSE)) /\
-   c = mkResp RDM_ACK (rs_src a) (rs_cc a) (rs_mc b) (rs_data a ++ rs_data b) (rs_pid a)).
+   c = mkResp RDM_ACK (rs_src a) (rs_cc a) (rs_mc b) (rs_data a ++ rs_data b) (rs_hdr a)).
 Proof.
   unfold combine. split.
   - intros H.
@@ -209,4 +209,33 @@ Proof.
     destruct Hc as [[Ea Eb]|[Ea Eb]]; rewrite Ea, Eb.
     + rewrite !N.eqb_refl. reflexivity.
     + rewrite !N.eqb_refl. cbn. reflexivity.
+Qed.
+
+(* ---------- while the destructor runs ---------- *)
+Definition fts : reply := mkReply RDM_FAILED_TO_SEND None 0.
+Definition dying_step (s s' : st) : Prop :=
+  calls (g_trace s') = calls (g_trace s) /\ m_out s' = m_out s /\ m_dout s' = m_dout s /\
+  g_ddone s' = g_ddone s /\
+  (g_done s' = g_done s \/ exists c, g_done s' = g_done s ++ [c] /\ c_reply c = fts /\ c_kind c <> K_ANSWERED).
+
+Lemma step_dying s f ag s' ag' :
+  h_destroying s = true -> s_pending s = true -> dframe f -> step s f ag = (s', ag') -> dying_step s s'.
+Proof.
+  intros Hd Hp Hdf H. unfold dying_step.
+  destruct f as [[sn cb|full nl cb| | |r|]| | | |]; cbn in Hdf; try contradiction; cbn [step do_op] in H;
+    rewrite ?Hd in H; cbn [negb andb] in H; rewrite ?andb_false_r in H.
+  - destruct (s_max s <=? len (s_queue s)).
+    + inversion H; subst. unfold log_comp; cbn.
+      split; [destruct (existsb _ _); cbn; [|rewrite calls_snoc by reflexivity]; reflexivity|].
+      repeat split; auto. right. eexists. split; [reflexivity|]. split; [reflexivity|discriminate].
+    + rewrite take_next_blocked in H by (cbn; exact Hp). inversion H; subst. cbn. repeat split; auto.
+  - inversion H; subst. repeat split; auto.
+  - inversion H; subst. cbn. repeat split; auto.
+  - rewrite take_next_blocked in H by (cbn; exact Hp). inversion H; subst. cbn. repeat split; auto.
+  - inversion H; subst. repeat split; auto.
+  - inversion H; subst. repeat split; auto.
+  - unfold destroy_next in H. destruct (s_queue s) as [|[id cb] q]; inversion H; subst; [repeat split; auto|].
+    unfold log_comp; cbn.
+    split; [destruct (existsb _ _); cbn; [|rewrite calls_snoc by reflexivity]; reflexivity|].
+    repeat split; auto. right. eexists. split; [reflexivity|]. split; [reflexivity|discriminate].
 Qed.
